@@ -144,3 +144,79 @@ def metadata(repo):
             f"def clientRegisteredClaims : List String := {lean_str_list(ClientMetadataClaims.REGISTERED_CLAIMS)}\n\n"
             f"def updateMustNotInclude : List String := {lean_str_list(forbidden)}\n\n"
             "end Generated.Metadata\n")
+
+
+@emitter("Errors.lean")
+def errors(repo):
+    """C20: every OAuth 2 error class (code, status, class-level description), every description the library passes
+    when it raises one (static text, or the source of a dynamic expression with its site), the RFC 6749 character
+    ranges of invalid_error_characters, and the default JSON response headers"""
+    import ast, importlib, inspect, os, pkgutil
+    import authlib.oauth2, authlib.oidc
+    from authlib.oauth2.base import OAuth2Error
+    from authlib.consts import default_json_headers
+    for pkg in (authlib.oauth2, authlib.oidc):
+        for m in pkgutil.walk_packages(pkg.__path__, pkg.__name__ + "."):
+            try:
+                importlib.import_module(m.name)
+            except Exception:
+                pass
+    classes = {}
+    def walk(c):
+        for s in c.__subclasses__():
+            if s.__module__.startswith("authlib."):
+                classes[s.__name__] = s
+            walk(s)
+    walk(OAuth2Error)
+    rows = sorted((n, c.error or "", int(c.status_code or 0), c.description or "") for n, c in classes.items())
+    static, dynamic = set(), set()
+    root = os.path.join(repo, "authlib")
+    for base in ("oauth2", "oidc"):
+        for dp, _, fs in os.walk(os.path.join(root, base)):
+            for f in fs:
+                if not f.endswith(".py"):
+                    continue
+                path = os.path.join(dp, f)
+                src = open(path).read()
+                tree = ast.parse(src)
+                for node in ast.walk(tree):
+                    if not isinstance(node, ast.Call):
+                        continue
+                    name = node.func.id if isinstance(node.func, ast.Name) else (node.func.attr if isinstance(node.func, ast.Attribute) else None)
+                    cls = classes.get(name)
+                    if cls is None:
+                        continue
+                    params = list(inspect.signature(cls.__init__).parameters)[1:]
+                    arg = None
+                    for kw in node.keywords:
+                        if kw.arg == "description":
+                            arg = kw.value
+                    if arg is None and params and params[0] == "description" and node.args:
+                        arg = node.args[0]
+                    if arg is None:
+                        continue
+                    if isinstance(arg, ast.Constant) and isinstance(arg.value, str):
+                        static.add(arg.value)
+                    elif isinstance(arg, ast.Constant) and arg.value is None:
+                        continue
+                    else:
+                        dynamic.add(os.path.relpath(path, root) + ": " + " ".join(ast.get_source_segment(src, arg).split()))
+    import authlib.oauth2.base as b
+    fsrc = inspect.getsource(b.invalid_error_characters)
+    ranges = None
+    for node in ast.walk(ast.parse(fsrc)):
+        if isinstance(node, ast.Assign) and getattr(node.targets[0], "id", None) == "valid_ranges":
+            ranges = ast.literal_eval(node.value)
+    if ranges is None:
+        raise ValueError("invalid_error_characters: valid_ranges not found")
+    return ("namespace Generated.Errors\n\n"
+            "/-- class name, error code, status, class-level description of every OAuth2Error subclass -/\n"
+            "def classes : List (String × String × Nat × String) := [\n" + ",\n".join(
+                f"  ({lean_str(n)}, {lean_str(e)}, {s}, {lean_str(d)})" for n, e, s, d in rows) + "]\n\n"
+            "/-- descriptions given as string literals where the library raises an OAuth 2 error -/\n"
+            f"def staticDescriptions : List String := {lean_str_list(sorted(static))}\n\n"
+            "/-- descriptions that are computed (site: source of the expression) -/\n"
+            f"def dynamicDescriptionSites : List String := {lean_str_list(sorted(dynamic))}\n\n"
+            f"def validRanges : List (Nat × Nat) := [{', '.join(f'({a}, {b_})' for a, b_ in ranges)}]\n\n"
+            f"def defaultJsonHeaders : List (String × String) := [{', '.join(f'({lean_str(k)}, {lean_str(v)})' for k, v in default_json_headers)}]\n\n"
+            "end Generated.Errors\n")
